@@ -224,6 +224,29 @@ def cases(tier, rng):
             w, h = W, H
         add_sc(spec, steps)
 
+    # 4b. chains of 3-4 EXACT enlargements (no padding: an implementation that looks through / collapses plain
+    # enlargements must compose the factors), optionally with one padded stage in between
+    tiny = [s for s in src if src[s][1]["w"] * src[s][1]["h"] <= 500 and s not in RAW_SHIFTED and s not in RAW_BAD_DIMS]
+    for _ in range(70 if quick else 800):
+        spec = rng.choice(tiny)
+        d, info = src[spec]
+        w, h = info["w"], info["h"]
+        steps = []
+        n = rng.choice([3, 3, 4])
+        padded_at = rng.choice([-1, -1, 0, 1, 2])
+        for k in range(n):
+            fx = rng.choice([1, 2, 2, 3, 4])
+            fy = fx if rng.random() < 0.7 else rng.choice([1, 2, 3])
+            W, H = w * fx, (h * fy if info["dims"] == 2 else rng.choice([1, 3, 7]))
+            if k == padded_at:
+                W, H = W + rng.randrange(1, 4), (H + rng.randrange(0, 3) if info["dims"] == 2 else H)
+            if W * H > 400000 or W > 3000:
+                break
+            steps.append(step(W, H, rng.choice(FILLS)))
+            w, h = W, H
+        if len(steps) >= 3:
+            add_sc(spec, steps)
+
     # 5. the float64 boundary: widths k*w-1, k*w, k*w+1 for big k (up to 2^31-1), sampled pixels
     nh = 6 if quick else 60
     for spec in [s for s in src if s not in RAW_SHIFTED and s not in RAW_BAD_DIMS]:
